@@ -211,6 +211,9 @@ def c07(prop, tier):
         ck.add_harness(res, lambda v: {'command': 'doctable', 'input': inp, 'violation': v}, 'document Get table')
         ck.extra['docget_queries'] = res.get('stats', {}).get('docget_queries', 0)
         log('  doctable: %d states, %d Get queries, %d violations' % (res.get('behaviours', 0), ck.extra['docget_queries'], len(res['violations'])))
+    # "at every moment": Get and Query while writes rebuild the view (spec/ReadView.tla)
+    import sched_family
+    sched_family.run_tornread(ck, prop, tier)
     return ck.finish()
 
 
@@ -316,8 +319,8 @@ def replay(prop, path):
             log('VIOLATION property=%s replay=%s' % (prop, path))
             log('  kind=%s %s' % (v['kind'], v['detail']))
         return 1 if vs else (2 if res.get('inconclusive') else 0)
-    if p.get('command') == 'doctable':
-        res = vlib.run_vh('doctable', p['input'], tag='replay')
+    if p.get('command') in ('doctable', 'tornread'):
+        res = vlib.run_vh(p['command'], p['input'], tag='replay')
         vs = res.get('violations', [])
         for v in vs[:5]:
             log('VIOLATION property=%s replay=%s' % (prop, path))
